@@ -12,7 +12,7 @@ import json
 import random
 import string
 
-from .common import Ctx, MachineryError
+from .common import Ctx, MachineryError, scribble
 from . import joseops as J
 from . import refimpl as R
 from . import keys as K
@@ -149,7 +149,7 @@ def _one_impl(sc, alg, kind, payload: bytes, with_ref: bool):
     # what was returned belongs to the caller: editing it must not change a later verification of the same token
     try:
         if isinstance(got_prot, dict):
-            got_prot_copy = json.loads(json.dumps(got_prot)); got_prot["injected"] = 1; got_prot.pop("alg", None)
+            got_prot_copy = json.loads(json.dumps(got_prot)); got_prot["injected"] = 1; got_prot.pop("alg", None); scribble(got_prot)
         else:
             got_prot_copy = got_prot
         if ser == "compact":
